@@ -47,7 +47,7 @@ CHECKS = {
             "per entry); coded regions are covered by C06/C07. UniverseOps.C10_every_composition / C10_merge_every_composition: for every description of the closed universe (merge: uncoded ones; huffman_not_lawfulMerge shows why); merged coded regions are exercised with their sources' values over two generations.", "§6 C10"),
     "C11": ("Lean proof (hit-or-miss characterisation of CollapseSequence::push) + exhaustive short-sequence correspondence",
             "C11.hit_or_miss: a push either returns the remembered index with the state literally unchanged (iff == to the remembered "
-            "item) or stores through the inner region; forgets_on_reset covers default/clear, merge by C10; adjacent: over any two consecutive pushes the second is collapsed iff it is == the item the first index reads (last_tracks: the remembered index is always the one just returned). Scripts enumerate all "
+            "item) or stores through the inner region; forgets_on_reset covers default/clear, merge by C10; adjacent: over any two consecutive pushes the second is collapsed iff it is == the item the first index reads (last_tracks / last_after_history: after any history of pushes the remembered index is the last one handed out). Scripts enumerate all "
             "sequences of a fixed length over three values on the top-level collapse entries and random ones with clear/merge/clone/"
             "serde on nested ones.", "§6 C11"),
     "C12": ("Lean proof (dense-index invariant of ConsecutiveIndexPairs and ColumnsRegion) + differential correspondence",
